@@ -492,6 +492,9 @@ def check(ctx, rep):
 
     rep.rule("R04h", "= R05i: the request line is read and used whole (a cut request names a different object, or loses its Gopher+ / HTTP marker)", floor=4)
     request_length_obligations(ctx, rep, "R04h")
+    rep.rule("R04i", "the MIME tables are asked about the selector (a path starting with '/'), never about a bare file name: "
+             "mimetypes.guess_type() reads `word:` at the start of its argument as a URL scheme (data: skips the tables altogether)", floor=1)
+    mime_lookup_obligations(ctx, rep, "R04i")
     rep.rule("R04a", "copy loop: 'rb' open in a with; each chunk written once unchanged; loop ends only on an empty read", floor=1)
     rep.rule("R04b", "Gopher+ length: transforming handlers leave size unset; generated menus use the unknown-length marker", floor=5)
     rep.rule("R04c", "HTTP HEAD: no body-producing call reachable; header writes independent of the method", floor=1)
@@ -721,3 +724,60 @@ def advertised_type_obligations(ctx, rep, rule="R04d"):
         # the adjusted value is what gets advertised
         rep.add(rule, f"{h.qualname}: advertised type = adjust(entry.getmimetype())", not problems, ctx.where(h), "; ".join(sorted(set(problems))),
                 key=f"{rule}|{h.qualname}")
+
+
+# ---------------------------------------------------------------------------------------------- R04i
+def mime_lookup_obligations(ctx, rep, rule="R04i"):
+    """Every call of mimetypes.guess_type(): the function that makes it is walked as an evaluator with the selector
+    '/docs/data:chart.gif' (parameters that look like a selector and self.selector); the text handed to guess_type must
+    not start like a URL scheme."""
+    import re as _re
+
+    from ..paths import Const, PathLimit, Walker
+
+    prog = ctx.prog
+    REP = "/docs/data:chart.gif"
+    scheme = _re.compile(r"^[^/:]+:")
+    n = 0
+    for f in prog.all_functions():
+        if not f.module.name.startswith("pygopherd") or ".tests" in f.module.name or f.module.name.endswith("testutil"):
+            continue
+        calls = [c for c in ast.walk(f.node) if isinstance(c, ast.Call)
+                 and (ctx.resolver.resolve(c, f, f.cls).name or "") in ("mimetypes.guess_type", "mimetypes.guess_extension", "mimetypes.MimeTypes.guess_type")
+                 and (ctx.resolver.resolve(c, f, f.cls).name or "").endswith("guess_type")]
+        for call in calls:
+            n += 1
+            seen = []
+            holder = {}
+
+            def cv(c_, target, st, _call=call, _seen=seen):
+                if c_ is _call:
+                    a = holder["w"].cur_args or []
+                    _seen.append(a[0].value if a and a[0].kind == "const" and isinstance(a[0].value, str) else None)
+                    return Const((None, None))
+                return None
+
+            facts = {"self.selector": Const(REP)}
+            env = {p_: Const(REP) for p_ in f.params if any(k in p_.lower() for k in ("selector", "path", "name", "file"))}
+            w = Walker(prog, ctx.resolver, call_value=cv, assumptions=dict(facts), sticky=set(facts), exact_loops=True, unroll=2, max_paths=20000,
+                       inline=lambda fn, t, d: d < 3 and (t.bound_cls is not None or fn.module is f.module) and fn.name != "handleeaext")
+            holder["w"] = w
+            try:
+                list(w.run(f, f.cls, env=env, facts=dict(facts)))
+            except PathLimit:
+                if not seen:
+                    seen.append(None)  # (otherwise: what the walked part of the paths handed over is judged)
+            texts = [x for x in seen if x is not None]
+            bad = [x for x in texts if scheme.match(x)]
+            if not texts or None in seen:
+                # not followed: the argument itself has to be the selector
+                a0 = norm(call.args[0]) if call.args else ""
+                ok = a0 in ("self.selector", "self.getselector()", "selector") or a0 in f.params
+                rep.add(rule, f"{f.qualname}: {norm(call)[:60]}", ok, ctx.where(f, call),
+                        "" if ok else f"what is looked up in the MIME tables (`{a0[:40]}`) could not be followed to the selector", key=f"{rule}|{f.qualname}|{norm(call.func)}")
+                continue
+            rep.add(rule, f"{f.qualname}: {norm(call)[:60]}", not bad, ctx.where(f, call),
+                    "" if not bad else f"for the file {REP!r} the tables are asked about {bad[0]!r}: guess_type() takes `data:` for a URL scheme and answers "
+                    "text/plain whatever the extension (other words before a colon are cut off as a scheme too)", key=f"{rule}|{f.qualname}|{norm(call.func)}")
+    if not n:
+        rep.fail(rule, "mimetypes.guess_type", detail="no look-up in the MIME tables found")
